@@ -11,7 +11,7 @@ PROPERTY = "C07"
 LEVEL = "exploration"
 RULE = ("seeded random well-formed histories (10-40 operations: store, metadata update in read-modify-write and fresh "
         "style, remove, makedir, empty and recursive removedir) over a 12-key universe with nesting to depth 3, siblings, "
-        "dotted names and prefix-confusable keys, for 14 configurations (memory and directory store: plain, ProxyStore, "
+        "dotted names and prefix-confusable keys, for 16 configurations (memory and directory store: plain, ProxyStore, "
         "IndexerStore, overlay with empty fall-back, mount-point default store, mounted under a prefix, default global "
         "composition). After every operation all reads of all keys are compared with the model. Evaluations = operations "
         "applied; a history is non-trivial when it has >= 5 operations including a removal; distinct = distinct "
@@ -70,9 +70,9 @@ def run_shard(spec):
             b = storecfg.build(cfg, scratch)
             return b, SM.StoreModel(pinned=b.pinned), None
         b0 = storecfg.build(cfg, scratch)
-        prefix = b0.prefix
+        prefix, extra_keys = b0.prefix, b0.extra_keys
         b0.close()
-        uni = [prefix + k for k in UNIVERSE]
+        uni = [prefix + k for k in UNIVERSE] + extra_keys
         v, steps, reads = storecheck.explore_case(PROPERTY, cfg, make_case, history, uni)
         evaluations += steps
         counters["ops." + cfg] = counters.get("ops." + cfg, 0) + steps
@@ -89,9 +89,9 @@ def run_shard(spec):
     else:
         cfg = spec["cfg"]
         b0 = storecfg.build(cfg, scratch)
-        prefix, pinned = b0.prefix, b0.pinned
+        prefix, pinned, extra_keys = b0.prefix, b0.pinned, b0.extra_keys
         b0.close()
-        uni = [prefix + k for k in UNIVERSE]
+        uni = [prefix + k for k in UNIVERSE] + extra_keys
         rnd = random.Random("%s/C07/%s/%s" % (spec["seed"], cfg, spec["rep"]))
         for h in range(spec["n"]):
             model = SM.StoreModel(pinned=pinned)
